@@ -487,14 +487,15 @@ def occupancy_sample(cfg):
     k = len(cfg["rates"]) + 1
     m = get_model("CHAIN%d" % k)
     m.parameters = {"r%d" % (j + 1): float(r) for j, r in enumerate(cfg["rates"])}
-    m.initial_values = ([int(cfg["n0"])] + [0] * (k - 1), np.float64(0))
+    t0 = float(cfg.get("t0", 0.0))
+    m.initial_values = ([int(cfg["n0"])] + [0] * (k - 1), np.float64(t0))
     np.random.seed(int(cfg["seed"]))
     with pg.quiet():
-        X, J, TT = m.solve_stochast(float(cfg["T"]), int(cfg["n"]), exact=True, full_output=True)
+        X, J, TT = m.solve_stochast(t0 + float(cfg["T"]), int(cfg["n"]), exact=True, full_output=True)
     occ = np.empty((len(X), k), dtype=int)
     for a, (x, t) in enumerate(zip(X, TT)):
         t = np.asarray(t)
-        j = int(np.searchsorted(t, float(cfg["T"]), side="right")) - 1     # last recorded time <= T
+        j = max(0, int(np.searchsorted(t, t0 + float(cfg["T"]), side="right")) - 1)     # last recorded time <= t0 + T
         occ[a] = np.rint(np.asarray(x)[j]).astype(int)
     return occ
 
@@ -596,7 +597,9 @@ def stat_configs(ck, rng):
         k = int(rng.integers(3, 5))
         rates = [float(rng.integers(2, 10)) / 4.0 for _ in range(k - 1)]
         T = float(rng.integers(2, 7)) / 4.0 / (sum(rates) / len(rates))
-        chains.append(dict(kind="chain", rates=rates, n0=int(rng.integers(5, 21)), T=T, n=n_chain, seed=seed()))
+        # every other chain starts its clock away from zero (the law depends on the elapsed time only)
+        chains.append(dict(kind="chain", rates=rates, n0=int(rng.integers(5, 21)), T=T, n=n_chain, seed=seed(),
+                           t0=[0.0, 4.0, -2.5, 100.0][len(chains) % 4]))
     sirs = []
     betas = ["1", "3/2", "2", "5/2", "3"]
     for j in range(ck.budget(2, 5)):
